@@ -41,6 +41,7 @@ ASSUMPTIONS = ["ideal cryptography (symbolic model); write keys of distinct obje
                "the ro_uri slot of a packed entry holds get_readonly_uri() of the child (what _pack_normalized_children writes)"]
 
 import json
+import os
 
 import common
 from common import hx
@@ -310,6 +311,19 @@ def readcap_view(rt, client, root_ro):
     return blobs
 
 
+# fixed corpus (runs first, independent of VERIF_SEED): one minimal graph per known mechanism
+#  * a directory with children linked by write cap, listed through the write cap and then opened by read cap on the
+#    same client (seeded C18-a: node cache keyed on the read cap hands back the writeable node)
+#  * a directory with several children that have *different* write caps (seeded C18-b: one salt / key stream per pack)
+#  * c21.CORPUS (cycle, same object by write and read cap) and LONE_CORPUS (seeded C18-c: lone unknown cap in the write slot)
+GRAPH_CORPUS = [
+    {"objs": [{"kind": "mdir", "mdmf": False, "links": [["f1", 1, "rw"], ["f2", 2, "rw"], ["sub", 3, "rw"], ["u", 5, "rw"]]},
+              {"kind": "mfile", "salt": 1}, {"kind": "mfile", "salt": 2},
+              {"kind": "mdir", "mdmf": True, "links": [["deep", 4, "rw"], ["up", 0, "rw"], ["f1", 1, "rw"]]},
+              {"kind": "mfile", "salt": 3}, {"kind": "unknown", "cap": "lafs://corpus", "imm": False}],
+     "root": [0, "rw"]},
+]
+
 LONE_CORPUS = [{"lone": True, "mdmf": False, "depth": 2, "token": "c0"}, {"lone": True, "mdmf": True, "depth": 3, "token": "c1"}]
 
 
@@ -396,11 +410,12 @@ def run(ctx):
         c = c["case"] if "case" in c else c
         cases_in, lone = ([], [c]) if c.get("lone") else ([c], [])
     else:
-        cases_in = [json.loads(json.dumps(c)) for c in c21.CORPUS]
-        for i in range(ctx.budget(22, 250)):
+        corpus_only = os.environ.get("VERIF_CORPUS_ONLY") == "1"
+        cases_in = [json.loads(json.dumps(c)) for c in GRAPH_CORPUS + c21.CORPUS]
+        for i in range(0 if corpus_only else ctx.budget(22, 250)):
             cases_in.append(c21.gen_graph(ctx.rng, ctx.rng.choice([3, 6, 10, 16, 25])))
         lone = [json.loads(json.dumps(c)) for c in LONE_CORPUS]
-        for i in range(ctx.budget(4, 60)):
+        for i in range(0 if corpus_only else ctx.budget(4, 60)):
             lone.append({"lone": True, "mdmf": ctx.rng.random() < 0.5, "depth": ctx.rng.choice([2, 2, 3, 4]),
                          "token": "%08x" % ctx.rng.randrange(1 << 32)})
     lines, impls, cases = [], [], []
